@@ -20,12 +20,12 @@ TRUSTED_BASE = [
     "regenerated constants (Gen/Env.v): the default max_recursion_depth",
     "extraction (ExtrOcamlBasic only) and the OCaml integer driver",
 ]
-ASSUMPTIONS = ["the nondeterministic traversal is tied to the model script by script in C17; here only its raise / no-raise outcome is compared"]
+ASSUMPTIONS = ["the nondeterministic traversal over graphs (cyclic data included) is tied to Model/NdGraph.v script by script through a descendant segment whose selector yields the visited node; for '$..*' as a whole only the raise / no-raise outcome is compared here (the whole-query tie is C17's)"]
 TECHNIQUE = "Coq proofs on a graph model of the data that the traversal completes iff no chain of more than `limit` nested containers exists (cycles always have one), and on trees in both directions; differential runs incl. cyclic Python structures and both modes"
 LEVEL_TEXT = ("C18_completes, C18_raises, C18_cyclic_raises (graph model, every limit), C18_tree_complete / C18_tree_raises (evaluator model on JSON trees). Partial, stated as such: interpreter stack/time/memory "
               "are not modelled (exercised with limits up to 2000 under an alarm). C18_nd_agrees / C18_nd_outcomes: in nondeterministic mode, for every script of random choices, the traversal raises exactly when the "
-              "nesting exceeds the limit and otherwise returns (JSON trees; cyclic data in that mode is decided by enumeration).")
-LEVEL_NOTE = "Partial for the runtime part (and for cyclic data in nondeterministic mode). Trusted: Coq kernel; graph model; correspondence; extraction and driver."
+              "nesting exceeds the limit and otherwise returns (JSON trees). C18_nd_graph_outcome / C18_nd_cyclic_raises: the same on graphs of cells - self-referential data raises for every script within a loop bound fixed by graph and limit (simulation of the tree traversal on the unfolding).")
+LEVEL_NOTE = "Partial for the runtime part. Trusted: Coq kernel; graph model; correspondence; extraction and driver."
 norm_reply = harness.norm_reply
 
 
@@ -147,6 +147,39 @@ def cases(ctx, budget):
             res.add(out); n += 1
         return res, n
 
+    echo_segs = {}
+
+    def echo_seg(limit):
+        """a descendant segment of the nondeterministic environment with that limit whose only selector yields the visited node itself"""
+        if limit not in echo_segs:
+            seg = env_for(limit, True).compile("$..*").segments[0]
+
+            class Echo:
+                def resolve(self, node): yield node
+            echo_segs[limit] = type(seg)(env=seg.env, token=seg.token, selectors=(Echo(),))
+        return echo_segs[limit]
+
+    def nd_scripts(cells, limit, cap, kind, nontriv):
+        """the traversal alone, script by script, against the graph model (Model/NdGraph.v gnd_visit): the locations in the order visited, or
+        JSONPathRecursionError; the model's loop bound is far above what the run needs (a model run out of fuel is a difference)"""
+        data = build(cells)
+        seg = echo_seg(limit)
+
+        def run(s):
+            root = jp.JSONPathNode(value=data, location=(), root=data)
+            signal.alarm(20)
+            try:
+                return [0] + wire.enc_list(lambda l: wire.enc_list(wire.enc_key, list(l)), [nd_.location for nd_ in seg.resolve([root])])
+            except jp.JSONPathRecursionError: return [1, 6]
+            except Alarm: return [9, 9]
+            except Exception as ex: return wire.enc_exception(ex)[:2]
+            finally: signal.alarm(0)
+        n = 0
+        for script, out in chooser.enumerate_outcomes(run, cap):
+            n += 1
+            yield Case({"cells": cells, "limit": limit, "mode": "nondeterministic", "script": script},
+                       [25, 200000, limit, len(script)] + list(script) + enc_graph(cells), out, None, None, nontriv, kind + "-script")
+
     def below_root(cells, limit, nd):
         """the same value reached through child segments / inside a filter: the depth is counted from the node '..' is applied to"""
         data = build(cells)
@@ -178,6 +211,8 @@ def cases(ctx, budget):
                     desc = {"cells": cells, "limit": limit, "mode": "nondeterministic" if nd else "deterministic", "applied": name}
                     if prob: yield Case(desc, None, [9], [118, 0], None, True, kind + "-below-root", True, lambda a, b, p=prob: p)
                     else: yield Case(desc, None, [0], None, None, nontriv, kind + "-below-root")
+        if nd_cap and len(cells) < 40 and limit <= 101:
+            for c in nd_scripts(cells, limit, min(nd_cap, 40), kind, nontriv): yield c
         if nd_cap:
             outs, n = nd_outcomes(cells, limit, nd_cap)
             want = {"ok"} if out[0] == 0 else {"rec"}
